@@ -7,8 +7,8 @@ U2 == "urn:u2"
 D(p, u) == [pfx |-> p, uri |-> u]
 Leaf(k, t) == [kind |-> k, pfx |-> "", local |-> "", decls |-> << >>, attrs |-> << >>, kids |-> << >>, text |-> t]
 E(p, l, ds, as, ks) == [kind |-> "el", pfx |-> p, local |-> l, decls |-> ds, attrs |-> as, kids |-> ks, text |-> ""]
-RootDecls == {<< >>, <<D("", U1)>>, <<D("p", U1)>>, <<D("", U2), D("p", U1)>>}
-ChildDecls == {<< >>, <<D("", U2)>>, <<D("", "")>>, <<D("p", U2)>>, <<D("", U1)>>, <<D("q", U1)>>}
+RootDecls == {<< >>, <<D("", U1)>>, <<D("p", U1)>>, <<D("", U2), D("p", U1)>>, <<D("p", U1), D("", U2)>>, <<D("p", U1), D("q", U2), D("", U1)>>}
+ChildDecls == {<< >>, <<D("", U2)>>, <<D("", "")>>, <<D("p", U2)>>, <<D("", U1)>>, <<D("q", U1)>>, <<D("q", U1), D("", U2)>>}
 Pfx == {"", "p"}
 AttrSets == {<< >>, <<[pfx |-> "", local |-> "a", val |-> "v1"]>>, <<[pfx |-> "p", local |-> "a", val |-> "v2"]>>,
              <<[pfx |-> "", local |-> "a", val |-> "v1"], [pfx |-> "p", local |-> "a", val |-> "v2"]>>}
